@@ -245,9 +245,18 @@ func (hw *httpWorld) genCase(id int, r *simnet.Rand, maxBody int) *httpCase {
 	if r.Intn(4) == 0 {
 		req.Headers = append(req.Headers, hdr{"User-Agent", "sim/" + randToken(r, 4)})
 	}
-	if r.Intn(4) == 0 {
-		c.xff = fmt.Sprintf("192.0.2.%d, 198.51.100.%d", r.Intn(250), r.Intn(250))
-		req.Headers = append(req.Headers, hdr{"X-Forwarded-For", c.xff})
+	if r.Intn(3) == 0 {
+		// one line with a list, or several header lines: the chain is all of them in order
+		var parts []string
+		for i := 0; i < r.Range(1, 3); i++ {
+			line := fmt.Sprintf("192.0.2.%d", r.Intn(250))
+			if r.Intn(2) == 0 {
+				line += fmt.Sprintf(", 198.51.100.%d", r.Intn(250))
+			}
+			parts = append(parts, line)
+			req.Headers = append(req.Headers, hdr{[]string{"X-Forwarded-For", "x-forwarded-for"}[r.Intn(2)], line})
+		}
+		c.xff = strings.Join(parts, ", ")
 	}
 	if req.Method == "POST" || req.Method == "PUT" || req.Method == "PATCH" {
 		n := 0
